@@ -863,7 +863,11 @@ class Context:
             """Convert argument to a string."""
             if not args:
                 return ""
-            return to_string(args[0])
+            value = args[0]
+            if isinstance(value, JSObject) and self._current_vm is not None:
+                # an object is first reduced by ToPrimitive (hint string)
+                value = self._current_vm._to_primitive(value, "string")
+            return to_string(value)
 
         string_constructor = JSCallableObject(string_call)
 
@@ -872,6 +876,8 @@ class Context:
             # each argument is converted with ToUint16 (NaN and infinities give 0)
             units = []
             for arg in args:
+                if isinstance(arg, JSObject) and self._current_vm is not None:
+                    arg = self._current_vm._to_primitive(arg, "number")
                 n = to_number(arg)
                 if math.isnan(n) or math.isinf(n):
                     n = 0
